@@ -186,7 +186,7 @@ func quote(s string) string {
 
 func runC18(c *core.Ctx, ck *Check) {
 	evalWitnesses(c, ck)
-	rounds := c.Scale(3, 60)
+	rounds := c.Scale(8, 400)
 	type job struct {
 		e *eco.Eco
 		k int
